@@ -107,8 +107,8 @@ def okResponse(
     do_compress: bool = False
     if compress and content and len(content) > min_compression_length:
         do_compress = True
-        if not headers:
-            headers = {}
+        # Never leak the encoding into a headers dict owned by the caller
+        headers = dict(headers or {})
         headers.update({
             b'Content-Encoding': b'gzip',
         })
